@@ -543,6 +543,11 @@ def run(ctx, replay_lines=None):
     for d in (1, 10, 100, 400):
         for k in ("t(", "t[", "a["):
             terms.append((G.nested_term(d, k), False))
+    for d in (5, 37, 200, 700):
+        terms.append((G.mixed_nested(d), False))
+        terms.append((G.mixed_nested(d, rrng), False))
+    for _ in range(150 if quick else 3000):
+        terms.append((G.value_term(rrng, rrng.range(5, 8), False), False))
     for s in G.SYMBOL_POOL:
         terms.append((["y" + s.hex()], False))
     for s in G.TRICKY_SYMBOLS:
@@ -617,6 +622,79 @@ def run(ctx, replay_lines=None):
             broken.append("correspondence %%j printer model/impl: %d differing of %d, first %s" % (len(pdiffs), len(jl), json.dumps(pdiffs[:1])[:500]))
             ctx.broken.append(broken[-1])
 
+    # (D3) the statement of Props.C11.jdn_roundtrip evaluated on the executable model (print, parseAll, compare up to source maps) must agree
+    #      with the implementation's round trip term by term; (D4) every text the real %j printed goes through BOTH parsers under
+    #      several schedules (state dumps after every byte) and the direct oracle
+    mdiffs = []
+    jtexts = []
+    if exe and rt_outs:
+        ml = ["rtm " + " ".join(t) for t, _ in terms]
+        mo = []
+        size = (len(ml) + JOBS - 1) // JOBS
+        with cf.ThreadPoolExecutor(JOBS) as ex:
+            for r in ex.map(lambda b: ctx.model(b, exe=exe), [ml[i:i + size] for i in range(0, len(ml), size)]):
+                mo += r
+        seen_txt = set()
+        for l, a, b in zip(ml, rt_outs, mo):
+            a0, b0 = a.split(" ")[0], b.split(" ")[0]
+            if b0 == "skip" or a0 == "CRASH":
+                rt_stats["model-roundtrip-skip"] += 1
+                continue
+            rt_stats["model-roundtrip-" + b0] += 1
+            same = a0 == b0
+            if same and a0 == "ok":
+                ha, hb = (a.split(" ") + ["-"])[1], (b.split(" ") + ["-"])[1]
+                if ha != hb:
+                    try:
+                        same = canon_jdn(bytes.fromhex(ha)) == canon_jdn(bytes.fromhex(hb)) and canon_jdn(bytes.fromhex(ha)) is not None
+                    except ValueError:
+                        same = False
+                if ha not in seen_txt and ha != "-" and len(ha) <= 6000:
+                    seen_txt.add(ha)
+                    jtexts.append({"kind": "jdn-output", "bytes": bytes.fromhex(ha), "flushes": []})
+            if not same:
+                mdiffs.append({"case": l, "impl": a[:300], "model": b[:300]})
+        if mdiffs or len(mo) != len(ml):
+            broken.append("correspondence jdn_roundtrip on the model vs implementation round trip: %d differing of %d, first %s" %
+                          (len(mdiffs), len(ml), json.dumps(mdiffs[:1])[:500]))
+            ctx.broken.append(broken[-1])
+    jdiffs = []
+    jruns = 0
+    if jtexts:
+        jl2, jown = case_lines(ctx, jtexts, 3, solo=False)
+        jouts, jcr = run_harness(hx, jl2)
+        report_crashes(ctx, hx, jcr, "while parsing %j output")
+        keep = [i for i, o in enumerate(jouts) if o != "CRASH"]
+        jl2, jown, jouts = [jl2[i] for i in keep], [jown[i] for i in keep], [jouts[i] for i in keep]
+        jruns = len(jl2)
+        for f in direct_oracle(jtexts, jl2, jown, jouts):
+            sig = "parse:" + f["why"]
+            if sig not in reported:
+                reported.add(sig)
+                ctx.violation(sig, {"kind": "parser-oracle", "detail": f, "lines": [f.get("ref_case"), f["case"]] if f.get("ref_case") else [f["case"]]},
+                              what="%s (on %%j output): %s" % (f["why"], f["case"][:160]))
+        for l, o in zip(jl2, jouts):
+            ev = [e for e in split_out(o)[0].split() if e.startswith(("v:", "e:"))]
+            if len(ev) != 1 or not ev[0].startswith("v:"):
+                sig = "jdn-output-not-one-value"
+                if sig not in reported:
+                    reported.add(sig)
+                    ctx.violation(sig, {"kind": "parser-oracle", "detail": {"why": sig, "case": l, "out": o[:400]}, "lines": [l]},
+                                  what="%%j output does not parse to exactly one value: %s -> %s" % (l[:120], " ".join(ev)[:120]))
+        if exe:
+            jm = [l + " " + (split_out(o)[2] or "-") for l, o in zip(jl2, jouts)]
+            jmo = []
+            size = (len(jm) + JOBS - 1) // JOBS
+            with cf.ThreadPoolExecutor(JOBS) as ex:
+                for r in ex.map(lambda b: ctx.model(b, exe=exe), [jm[i:i + size] for i in range(0, len(jm), size)]):
+                    jmo += r
+            for l, a, b in zip(jl2, jouts, jmo):
+                if " ".join(a.split()) != " ".join(b.split()):
+                    jdiffs.append({"case": l, "impl": a[:600], "model": b[:600]})
+            if jdiffs or len(jmo) != len(jm):
+                broken.append("correspondence parser model/impl on %%j output: %d differing runs of %d, first %s" % (len(jdiffs), len(jm), json.dumps(jdiffs[:1])[:600]))
+                ctx.broken.append(broken[-1])
+
     if broken and not ctx.nviol:
         # a proof obligation / the tie broke and the direct oracles found nothing at this size: search harder once
         if quick and not replay_lines:
@@ -632,8 +710,8 @@ def run(ctx, replay_lines=None):
                 ctx.violation("parse:" + f["why"], {"kind": "parser-oracle", "detail": f, "lines": [f.get("ref_case"), f["case"]] if f.get("ref_case") else [f["case"]]},
                               what="%s (extended search): %s" % (f["why"], f["case"][:160]))
         if not ctx.nviol:
-            first = diffs[0] if diffs else (pdiffs[0] if pdiffs else None)
-            ctx.violation("broken:" + broken[0][:80], {"kind": "broken-obligation", "broken": broken, "first_diffs": diffs[:5] + pdiffs[:5],
+            first = diffs[0] if diffs else (pdiffs[0] if pdiffs else (jdiffs[0] if jdiffs else (mdiffs[0] if mdiffs else None)))
+            ctx.violation("broken:" + broken[0][:80], {"kind": "broken-obligation", "broken": broken, "first_diffs": diffs[:5] + pdiffs[:5] + mdiffs[:5] + jdiffs[:5],
                                                        "lines": [first["case"]] if first else []}, found=False,
                           what="no longer shown to hold: " + "; ".join(broken)[:700])
 
@@ -648,6 +726,10 @@ def run(ctx, replay_lines=None):
         "texts": len(texts), "schedules_per_text": nsched, "parser_runs": len(lines),
         "oracle_failures": len(fails), "history_independence_forms_checked": hist_checked, "sequence_texts": len(seqs), "correspondence_runs": model_lines, "correspondence_diffs": len(diffs),
         "jdn_terms": len(rt_lines), "jdn_results": dict(rt_stats), "jdn_printer_correspondence_diffs": len(pdiffs),
+        "jdn_model_roundtrip_diffs": len(mdiffs), "jdn_output_texts_through_both_parsers": len(jtexts), "jdn_output_parser_runs": jruns,
+        "jdn_output_parser_diffs": len(jdiffs),
+        "jdn_output_len_min_med_max": ([min(len(t["bytes"]) for t in jtexts), sorted(len(t["bytes"]) for t in jtexts)[len(jtexts) // 2],
+                                        max(len(t["bytes"]) for t in jtexts)] if jtexts else []),
         "distribution": summ,
     }
     return ctx.finish("proof", cov, assumptions=[
